@@ -147,8 +147,15 @@ func GenSpec(r *Rand, edits int) (M, []string) {
 		doc["responses"] = responses
 	}
 	var applied []string
+	last := -1
 	for i := 0; i < edits; i++ {
-		if e := applyEdit(r, doc); e != "" {
+		// several edits of the same kind on different targets are what makes order dependence visible
+		kind := r.Intn(nEditKinds)
+		if last >= 0 && r.Chance(450) {
+			kind = last
+		}
+		last = kind
+		if e := applyEdit(r, doc, kind); e != "" {
 			applied = append(applied, e)
 		}
 	}
@@ -181,7 +188,9 @@ func sortedKeys(m M) []string {
 
 // applyEdit breaks one documented rule (or adds a warning-only condition). Several edits of the same kind on different
 // targets are what makes order dependence visible.
-func applyEdit(r *Rand, doc M) string {
+const nEditKinds = 18
+
+func applyEdit(r *Rand, doc M, kind int) string {
 	defs, _ := doc["definitions"].(M)
 	paths, _ := doc["paths"].(M)
 	dn := sortedKeys(defs)
@@ -214,7 +223,7 @@ func applyEdit(r *Rand, doc M) string {
 		n := pick(r, c)
 		return n, defs[n].(M)
 	}
-	switch k := r.Intn(18); k {
+	switch kind {
 	case 0, 1: // required property that is not defined
 		if n, d := plainDef(); d != nil {
 			req, _ := d["required"].([]any)
@@ -311,13 +320,17 @@ func applyEdit(r *Rand, doc M) string {
 			return "dup-props:" + child
 		}
 	case 11: // circular ancestry
-		a, b := "Y1", "Y2"
+		sfx := fmt.Sprint(r.Intn(3))
+		a, b := "Y1"+sfx, "Y2"+sfx
 		defs[a] = M{"allOf": []any{M{"$ref": "#/definitions/" + b}, M{"type": "object", "properties": M{"ya": M{"type": "string"}}}}}
 		defs[b] = M{"allOf": []any{M{"$ref": "#/definitions/" + a}, M{"type": "object", "properties": M{"yb": M{"type": "string"}}}}}
 		return "circular"
 	case 12: // overlapping paths
 		paths["/ov/{x}"] = M{"get": M{"operationId": "ovx", "parameters": []any{M{"name": "x", "in": "path", "required": true, "type": "string"}}, "responses": M{"200": M{"description": "ok"}}}}
 		paths["/ov/{y}"] = M{"get": M{"operationId": "ovy", "parameters": []any{M{"name": "y", "in": "path", "required": true, "type": "string"}}, "responses": M{"200": M{"description": "ok"}}}}
+		if r.Chance(500) {
+			paths["/ov/{z}"] = M{"get": M{"operationId": "ovz", "parameters": []any{M{"name": "z", "in": "path", "required": true, "type": "string"}}, "responses": M{"200": M{"description": "ok"}}}}
+		}
 		return "overlap"
 	case 13: // invalid pattern in a parameter
 		if _, _, op := anyOp(); op != nil {
